@@ -13,6 +13,7 @@ from fvmon import gen
 from fvmon.observe import content, snap, idset, RC, unbox, rc_kind
 
 SPEC = {
+    "anchors": ["fibertree.core.iterators:__and__", "fibertree.core.iterators:__or__", "fibertree.core.iterators:__xor__", "fibertree.core.iterators:__sub__", "fibertree.core.iterators:iterRange", "fibertree.core.iterators:iterRangeShape", "fibertree.core.iterators:intersection", "fibertree.core.iterators:union", "fibertree.core.fiber:Fiber._createDefault", "fibertree.core.fiber:Fiber.project"],
     "rule": ("cases = (i) every ordered pair of 3-state occupancy vectors (absent / explicit default / value) "
              "over coordinates {0..n-1} (n=4 quick, n=5 thorough), free and tensor-owned, each under & | ^ -; "
              "(ii) every ordered pair of 3-state interior fibers (absent / empty sub-fiber / non-empty sub-fiber) "
